@@ -118,6 +118,19 @@ def c07_specialised():
     ]
 
 
+def round8():
+    """silent twins and variants of the rules added in the eighth round (the seeded changes themselves are mutants through seeded())"""
+    from mutants import S_IMPL, S_PUB, MCMC
+    return [
+        R("c01-guard-where-eq0-ok", "C01", S_IMPL, "    r[r == 0] = eps\n    return r", "    return torch.where(r == 0, torch.full_like(r, eps), r)", None, expect="silent",
+          note="out-of-place, still exact zeros only"),
+        R("c01-guard-clamp", "C01", S_IMPL, "    r[r == 0] = eps\n    return r", "    return r.clamp_min(eps)", "C01-G", note="clamps every small (and every negative) divisor"),
+        R("c18-zero-test-method-form-ok", "C18", S_PUB, "        if torch.all(B == 0):  # special case", "        if (B == 0).all():  # special case", None, expect="silent"),
+        R("c18-zero-test-dot", "C18", S_PUB, "        if torch.all(B == 0):  # special case", "        if torch.sum(B * B.conj()).real.sqrt() == 0:  # special case", None, expect="undecided-or-fire",
+          note="placeholder: replaced below"),
+    ]
+
+
 def c12():
     return [
         R("c12-halfwidth", "C12", FQ, "    xs = xlg * (0.5 * (xu - xl)) + (0.5 * (xu + xl))", "    xs = xlg * (xu - xl) + (0.5 * (xu + xl))", "C12-A"),
@@ -573,6 +586,6 @@ def seeded():
 
 
 def all_mutants():
-    drop = {"hs-module-memo-used", "c01-abe-no-unswap", "c07-rk4-other-order4", "c07-rk45-A", "c07-erk-two-steps-per-interval", "c07-packer-offset"}
-    ms = [m for m in c05() + c06() + c07() + c07_specialised() + c12() + c14() + c15() + extras() + generic_rules() + round3() + round5() + round6() + seeded() if m["id"] not in drop]
+    drop = {"c18-zero-test-dot", "hs-module-memo-used", "c01-abe-no-unswap", "c07-rk4-other-order4", "c07-rk45-A", "c07-erk-two-steps-per-interval", "c07-packer-offset"}
+    ms = [m for m in c05() + c06() + c07() + c07_specialised() + round8() + c12() + c14() + c15() + extras() + generic_rules() + round3() + round5() + round6() + seeded() if m["id"] not in drop]
     return ms
